@@ -392,39 +392,6 @@ Proof.
     intros g c' Hg. apply IH. exact Hg.
 Qed.
 
-Lemma gen_kind_not : forall k0,
-  forallb (fun r => negb (action_eqb (snd r) (Some k0))) Gen_Lexer.rules = true ->
-  forall fuel s line k text l' rest,
-    next_token fuel Gen_Lexer.rules s line = Some (k, text, l', rest) -> tk_eqb k k0 = false.
-Proof.
-  intros k0 Hall fuel s line k text l' rest H.
-  apply next_token_kind in H. destruct H as [r Hin].
-  rewrite forallb_forall in Hall. apply Hall in Hin. cbn [snd action_eqb] in Hin.
-  apply negb_true_iff in Hin. exact Hin.
-Qed.
-
-Lemma gen_no_unknown : forall fuel s line k text l' rest,
-  next_token fuel Gen_Lexer.rules s line = Some (k, text, l', rest) -> tk_eqb k UNKNOWN = false.
-Proof. apply gen_kind_not. vm_compute. reflexivity. Qed.
-
-Lemma gen_no_eof : forall fuel s line k text l' rest,
-  next_token fuel Gen_Lexer.rules s line = Some (k, text, l', rest) -> k <> T_EOF.
-Proof.
-  intros fuel s line k text l' rest H E. subst k.
-  assert (Hf : tk_eqb T_EOF T_EOF = false).
-  { eapply gen_kind_not; [| exact H]. vm_compute. reflexivity. }
-  rewrite tk_eqb_refl in Hf. discriminate.
-Qed.
-
-Lemma C14_scan_proof : C14_scan_stmt.
-Proof.
-  intros files main depth c H. apply scan_file_splice; [exact gen_no_unknown | exact H].
-Qed.
-
-(* ================================================================================================ *)
-(* 4. invariants of scan_file                                                                       *)
-(* ================================================================================================ *)
-
 Lemma scan_file_forall : forall rules files (Pk : tkind -> Prop) (PE : perr -> Prop),
   (forall fuel s line k text l' rest,
       next_token fuel rules s line = Some (k, text, l', rest) -> Pk k) ->
@@ -463,19 +430,6 @@ Proof.
   destruct (rev toks) as [| last tl]; [destruct (fcontains files main) |]; eexists; eexists; reflexivity.
 Qed.
 
-Lemma C14_eof_proof : C14_eof_stmt.
-Proof.
-  intros files main toks errs H. unfold scan, scan_fuel in H.
-  destruct (flookup files main) as [c |] eqn:Ef.
-  - apply bind_Ok_inv in H. destruct H as [r [Hr H]]. injection H as Ht He.
-    destruct (eof_token_shape files main (fst r)) as [fn [l Heof]].
-    exists (fst r), fn, l. split; [rewrite <- Heof; symmetry; exact Ht |].
-    eapply (scan_file_forall Gen_Lexer.rules files (fun k => k <> T_EOF) (fun _ => True)) in Hr;
-      [exact (proj1 Hr) | exact gen_no_eof | | | | ]; intros; exact I.
-  - injection H as Ht He.
-    destruct (eof_token_shape files main []) as [fn [l Heof]].
-    exists [], fn, l. split; [rewrite <- Heof; symmetry; exact Ht | constructor].
-Qed.
 
 (* ================================================================================================ *)
 (* 5. C15                                                                                           *)
@@ -523,8 +477,9 @@ Proof.
 Qed.
 
 (* ================================================================================================ *)
-Print Assumptions C14_scan_proof.
-Print Assumptions C14_eof_proof.
+
+
+Print Assumptions scan_file_splice.
 Print Assumptions C15_terminates_proof.
 Print Assumptions C15_missing_sound_proof.
 Print Assumptions C15_no_include_proof.
